@@ -1,9 +1,1519 @@
-//! stub
-use serde::{Deserialize, Serialize};
-use super::common::Outcome;
+//! Layer B (`executor` profile): the real `Executor::run_until_stopped` against a fake sequencer.
+//!
+//! Real: the select loop, the block timer (paused tokio clock), `BundleFactory`, `SubmitFut`
+//! (nonce refetch + resubmission), `submit_tx` / `get_pending_nonce` with their tryhard back-off,
+//! the shutdown drain, `Handle::send_timeout`, tonic client + in-memory HTTP/2.
+//! Stub: collectors (tasks calling `Handle::send_timeout` at PRNG virtual times), the sequencer
+//! (CometBFT JSON-RPC through `SimHttpClient` (hook H6); `SequencerService/GetPendingNonce` over an
+//! in-memory tonic channel), the shutdown token.
+//!
+//! `Executor` is constructed field by field (this module is a descendant of `executor`, so the
+//! private fields are reachable); `executor::Builder::build` (key file, URL parsing, the 256-slot
+//! channel) is *not* exercised.
+
+use std::{
+    collections::VecDeque,
+    io,
+    pin::Pin,
+    sync::{
+        Arc,
+        Mutex,
+    },
+    task::{
+        Context,
+        Poll,
+    },
+    time::Duration,
+};
+
+use astria_core::{
+    crypto::SigningKey,
+    generated::astria::{
+        protocol::transaction::v1::Transaction as RawTransaction,
+        sequencerblock::v1::{
+            sequencer_service_client::SequencerServiceClient,
+            sequencer_service_server::{
+                SequencerService,
+                SequencerServiceServer,
+            },
+            FilteredSequencerBlock,
+            GetFilteredSequencerBlockRequest,
+            GetPendingNonceRequest,
+            GetPendingNonceResponse,
+            GetSequencerBlockRequest,
+            GetUpgradesInfoRequest,
+            GetUpgradesInfoResponse,
+            GetValidatorNameRequest,
+            GetValidatorNameResponse,
+            SequencerBlock as RawSequencerBlock,
+        },
+    },
+    primitive::v1::Address,
+    protocol::{
+        abci::AbciErrorCode,
+        transaction::v1::Transaction,
+    },
+    Protobuf as _,
+};
+use prost::Message as _;
+use sequencer_client::tendermint_rpc::{
+    self as rpc,
+    endpoint::broadcast::tx_sync,
+};
+use serde::{
+    Deserialize,
+    Serialize,
+};
+use telemetry::Metrics as _;
+use tokio::{
+    sync::{
+        mpsc,
+        watch,
+    },
+    time::Instant,
+};
+use tokio_util::sync::CancellationToken;
+
+use super::{
+    common::{
+        Outcome,
+        Rng,
+        Stats,
+        Trace,
+        Violations,
+    },
+    txs::{
+        self,
+        TxKey,
+        TxSpec,
+    },
+};
+use crate::{
+    executor::{
+        Executor,
+        Handle,
+        Status,
+    },
+    metrics::Metrics,
+};
+
+const PROP: &str = "C16";
+const CHAIN_ID: &str = "verif-chain";
+const ABCI_URL: &str = "http://sim-sequencer.abci:26657";
+const GRPC_URL: &str = "http://sim-sequencer.grpc:8080";
+/// At most this many consecutive transport errors per RPC kind, so that one back-off never
+/// exceeds 1.6 s and the 16 s drain budget is not exhausted by faults that have stopped.
+const MAX_CONSECUTIVE_ERRORS: u32 = 4;
+/// Latency of the fake sequencer once faults have stopped (after the shutdown signal).
+const CALM_LATENCY_MS: u64 = 5;
+
+// ---------------------------------------------------------------------------------------------
+// scenario
+// ---------------------------------------------------------------------------------------------
+
+#[derive(Serialize, Deserialize, Clone, Copy, Debug, PartialEq, Eq)]
+pub(crate) enum BcastOutcome {
+    /// process the transaction (accept it, or answer with a nonce error if it is stale)
+    Process,
+    /// transport error before the transaction reached the sequencer (connection refused / reset)
+    TransportError,
+    /// CheckTx fails for a reason other than the nonce: the executor gives the bundle up
+    RejectOther,
+    /// Exploration only (profile `executor-lostresp`, not part of the registered check): the
+    /// sequencer accepts the transaction but the response is lost; like CometBFT, the fake then
+    /// answers a byte-identical retry with the JSON-RPC error "tx already exists in cache".
+    AcceptLoseResponse,
+}
+
+#[derive(Serialize, Deserialize, Clone, Copy, Debug)]
+pub(crate) struct BcastPlan {
+    pub(crate) latency_ms: u64,
+    pub(crate) outcome: BcastOutcome,
+}
+
+#[derive(Serialize, Deserialize, Clone, Copy, Debug)]
+pub(crate) struct NoncePlan {
+    pub(crate) latency_ms: u64,
+    pub(crate) error: bool,
+}
+
 #[derive(Serialize, Deserialize, Clone, Debug)]
-pub(crate) struct Scenario { pub(crate) ops: Vec<u8> }
-pub(crate) fn generate(_tier: &str, _seed: u64) -> Scenario { Scenario { ops: vec![] } }
-pub(crate) fn run(_s: &Scenario) -> Outcome { Outcome::default() }
-pub(crate) fn simplify(_s: &Scenario) -> Vec<Scenario> { vec![] }
-pub(crate) fn summarize(_s: &Scenario) -> serde_json::Value { serde_json::Value::Null }
+pub(crate) struct Config {
+    pub(crate) max_bytes: usize,
+    pub(crate) capacity: usize,
+    pub(crate) block_time_ms: u64,
+    pub(crate) chan_capacity: usize,
+    pub(crate) send_timeout_ms: u64,
+    /// relative to the instant the executor reports `is_connected`
+    pub(crate) shutdown_at_ms: u64,
+    pub(crate) start_nonce: u32,
+    pub(crate) genesis_errors: u8,
+    /// the k-th broadcast / nonce request (while faults are on) is treated by plan[k % len]
+    pub(crate) bcast_plan: Vec<BcastPlan>,
+    pub(crate) nonce_plan: Vec<NoncePlan>,
+}
+
+#[derive(Serialize, Deserialize, Clone, Copy, Debug, PartialEq, Eq)]
+pub(crate) enum SizeSpec {
+    Min,
+    Data(usize),
+    Frac(u16),
+    ExactMax,
+    MaxPlus(u16),
+}
+
+#[derive(Serialize, Deserialize, Clone, Debug)]
+pub(crate) enum Op {
+    /// A collector calls `Handle::send_timeout` at this virtual time.
+    Send {
+        at_ms: u64,
+        id: u32,
+        rollup: u8,
+        asset: u8,
+        size: SizeSpec,
+    },
+    /// Somebody else's transactions of the same account landed: the account nonce moves on, the
+    /// next broadcast carrying a stale nonce is answered INVALID_NONCE (or NONCE_TAKEN).
+    NonceBump {
+        at_ms: u64,
+        by: u32,
+        taken: bool,
+    },
+}
+
+impl Op {
+    fn at_ms(&self) -> u64 {
+        match self {
+            Op::Send {
+                at_ms, ..
+            }
+            | Op::NonceBump {
+                at_ms, ..
+            } => *at_ms,
+        }
+    }
+}
+
+#[derive(Serialize, Deserialize, Clone, Debug)]
+pub(crate) struct Scenario {
+    pub(crate) cfg: Config,
+    pub(crate) ops: Vec<Op>,
+}
+
+pub(crate) fn generate(tier: &str, seed: u64) -> Scenario {
+    let mut rng = Rng::new(seed ^ 0xE8EC_0000);
+    let max_bytes = match rng.weighted(&[1, 2, 8, 8, 3]) {
+        0 => *rng.pick(&[106usize, 109, 110]),
+        1 => *rng.pick(&[212usize, 213, 218, 235, 236, 237, 318]),
+        2 => rng.range(220, 700) as usize,
+        3 => rng.range(700, 3000) as usize,
+        _ => rng.range(3000, 12000) as usize,
+    };
+    let capacity = rng.range(1, 4) as usize;
+    let block_time_ms = *rng.pick(&[20u64, 50, 100, 250, 500, 1000, 2000]);
+    let chan_capacity = *rng.pick(&[1usize, 1, 2, 4, 16, 256]);
+    let send_timeout_ms = *rng.pick(&[0u64, 5, 50, 500, 3000]);
+    let n_sends = if tier == "thorough" {
+        rng.range(5, 250) as usize
+    } else {
+        rng.range(5, 90) as usize
+    };
+    // arrivals: bursts separated by gaps
+    let gap_small = *rng.pick(&[0u64, 0, 1, 5, 20, block_time_ms / 2, block_time_ms * 2]);
+    let gap_big = *rng.pick(&[50u64, 200, 1000, 3000]);
+    let burst_pm = *rng.pick(&[0u64, 50, 200, 600]);
+    let size_w: [u32; 7] = [
+        *rng.pick(&[0, 2, 10]),  // Min
+        *rng.pick(&[0, 5, 20]),  // Data small
+        *rng.pick(&[5, 20, 40]), // Frac small
+        *rng.pick(&[0, 10, 30]), // Frac half
+        *rng.pick(&[0, 5, 15]),  // Frac near max
+        *rng.pick(&[0, 3, 10]),  // ExactMax
+        *rng.pick(&[0, 2, 4, 8]), // MaxPlus
+    ];
+    let n_rollups = rng.range(1, 4) as u8;
+    let n_assets = rng.range(1, txs::ASSETS.len() as u64) as u8;
+    let mut ops = Vec::new();
+    let mut t = rng.range(0, 50);
+    for k in 0..n_sends {
+        let size = match rng.weighted(&size_w) {
+            0 => SizeSpec::Min,
+            1 => SizeSpec::Data(rng.range(0, 40) as usize),
+            2 => SizeSpec::Frac(rng.range(20, 300) as u16),
+            3 => SizeSpec::Frac(rng.range(300, 700) as u16),
+            4 => SizeSpec::Frac(rng.range(700, 1000) as u16),
+            5 => SizeSpec::ExactMax,
+            _ => SizeSpec::MaxPlus(*rng.pick(&[1u16, 1, 2, 3, 50])),
+        };
+        ops.push(Op::Send {
+            at_ms: t,
+            id: k as u32 + 1,
+            rollup: rng.below(u64::from(n_rollups)) as u8,
+            asset: rng.below(u64::from(n_assets)) as u8,
+            size,
+        });
+        t += if rng.below(1000) < burst_pm {
+            rng.range(0, gap_big)
+        } else {
+            rng.range(0, gap_small)
+        };
+    }
+    let horizon = t.max(1);
+    // nonce bumps
+    let n_bumps = *rng.pick(&[0usize, 0, 1, 2, 4, 8]);
+    for _ in 0..n_bumps {
+        ops.push(Op::NonceBump {
+            at_ms: rng.range(0, horizon + 2 * block_time_ms),
+            by: rng.range(1, 3) as u32,
+            taken: rng.chance(1, 3),
+        });
+    }
+    ops.sort_by_key(Op::at_ms);
+    let shutdown_at_ms = match rng.weighted(&[1, 3, 3, 5]) {
+        0 => rng.range(0, 20),
+        1 => rng.range(0, horizon),
+        2 => horizon + rng.range(0, block_time_ms),
+        _ => horizon + rng.range(block_time_ms, 6 * block_time_ms + 5000),
+    };
+    // fake sequencer behaviour
+    let lat_hi = match rng.weighted(&[3, 3, 3, 2]) {
+        0 => *rng.pick(&[0u64, 2, 10]),
+        1 => block_time_ms,
+        2 => (block_time_ms * 4).min(4000),
+        _ => 4000,
+    };
+    let err_pm = *rng.pick(&[0u64, 0, 60, 250]);
+    let reject_pm = *rng.pick(&[0u64, 0, 0, 40]);
+    let plan_len = rng.range(8, 48) as usize;
+    let bcast_plan = (0..plan_len)
+        .map(|_| {
+            let x = rng.below(1000);
+            BcastPlan {
+                latency_ms: if rng.chance(1, 4) { 0 } else { rng.range(0, lat_hi) },
+                outcome: if x < err_pm {
+                    BcastOutcome::TransportError
+                } else if x < err_pm + reject_pm {
+                    BcastOutcome::RejectOther
+                } else {
+                    BcastOutcome::Process
+                },
+            }
+        })
+        .collect();
+    let nerr_pm = *rng.pick(&[0u64, 0, 100, 400]);
+    let nonce_plan = (0..rng.range(4, 16) as usize)
+        .map(|_| NoncePlan {
+            latency_ms: if rng.chance(1, 4) { 0 } else { rng.range(0, lat_hi) },
+            error: rng.below(1000) < nerr_pm,
+        })
+        .collect();
+    Scenario {
+        cfg: Config {
+            max_bytes,
+            capacity,
+            block_time_ms,
+            chan_capacity,
+            send_timeout_ms,
+            shutdown_at_ms,
+            start_nonce: *rng.pick(&[0u32, 1, 7, 1000]),
+            genesis_errors: *rng.pick(&[0u8, 0, 1, 3]),
+            bcast_plan,
+            nonce_plan,
+        },
+        ops,
+    }
+}
+
+/// The registered scenario plus one or two "accepted, response lost" broadcasts early in the plan.
+pub(crate) fn generate_lostresp(tier: &str, seed: u64) -> Scenario {
+    let mut s = generate(tier, seed);
+    let mut rng = Rng::new(seed ^ 0x1057_0000);
+    let n = s.cfg.bcast_plan.len();
+    for _ in 0..rng.range(1, 2) {
+        let k = rng.below_usize(n.min(6));
+        s.cfg.bcast_plan[k].outcome = BcastOutcome::AcceptLoseResponse;
+    }
+    s
+}
+
+pub(crate) fn simplify(s: &Scenario) -> Vec<Scenario> {
+    let mut out = Vec::new();
+    let plain_fault = |o: BcastOutcome| {
+        matches!(o, BcastOutcome::TransportError | BcastOutcome::RejectOther)
+    };
+    if s.cfg.bcast_plan.iter().any(|p| plain_fault(p.outcome)) {
+        let mut c = s.clone();
+        for p in &mut c.cfg.bcast_plan {
+            if plain_fault(p.outcome) {
+                p.outcome = BcastOutcome::Process;
+            }
+        }
+        out.push(c);
+    }
+    if s.cfg.nonce_plan.iter().any(|p| p.error) || s.cfg.genesis_errors > 0 {
+        let mut c = s.clone();
+        for p in &mut c.cfg.nonce_plan {
+            p.error = false;
+        }
+        c.cfg.genesis_errors = 0;
+        out.push(c);
+    }
+    if s.cfg.bcast_plan.iter().any(|p| p.latency_ms > 0)
+        || s.cfg.nonce_plan.iter().any(|p| p.latency_ms > 0)
+    {
+        let mut c = s.clone();
+        for p in &mut c.cfg.bcast_plan {
+            p.latency_ms = 0;
+        }
+        for p in &mut c.cfg.nonce_plan {
+            p.latency_ms = 0;
+        }
+        out.push(c);
+    }
+    if s.cfg.chan_capacity != 256 {
+        let mut c = s.clone();
+        c.cfg.chan_capacity = 256;
+        out.push(c);
+    }
+    if s.cfg.start_nonce != 0 {
+        let mut c = s.clone();
+        c.cfg.start_nonce = 0;
+        out.push(c);
+    }
+    for (i, op) in s.ops.iter().enumerate() {
+        if out.len() >= 64 {
+            break;
+        }
+        if let Op::Send {
+            at_ms,
+            id,
+            rollup,
+            asset,
+            size,
+        } = op
+        {
+            if *size != SizeSpec::Min || *rollup != 0 || *asset != 0 {
+                let mut c = s.clone();
+                c.ops[i] = Op::Send {
+                    at_ms: *at_ms,
+                    id: *id,
+                    rollup: 0,
+                    asset: 0,
+                    size: if *size == SizeSpec::Min { SizeSpec::Min } else { SizeSpec::Frac(300) },
+                };
+                if *size != SizeSpec::Frac(300) || *rollup != 0 || *asset != 0 {
+                    out.push(c);
+                }
+            }
+        }
+    }
+    out
+}
+
+pub(crate) fn summarize(s: &Scenario) -> serde_json::Value {
+    let ops: Vec<String> = s
+        .ops
+        .iter()
+        .take(30)
+        .map(|op| match op {
+            Op::Send {
+                at_ms,
+                id,
+                size,
+                ..
+            } => format!("{at_ms}ms send#{id}:{size:?}"),
+            Op::NonceBump {
+                at_ms,
+                by,
+                taken,
+            } => format!("{at_ms}ms nonce+{by}{}", if *taken { ":taken" } else { "" }),
+        })
+        .collect();
+    let c = &s.cfg;
+    serde_json::json!({"layer": "executor", "max_bytes": c.max_bytes, "capacity": c.capacity,
+        "block_time_ms": c.block_time_ms, "chan_capacity": c.chan_capacity,
+        "send_timeout_ms": c.send_timeout_ms, "shutdown_at_ms": c.shutdown_at_ms,
+        "bcast_plan_head": c.bcast_plan.iter().take(6).map(|p| format!("{}ms:{:?}", p.latency_ms, p.outcome)).collect::<Vec<_>>(),
+        "n_ops": s.ops.len(), "first_ops": ops})
+}
+
+fn resolve(size: SizeSpec, max: usize) -> usize {
+    match size {
+        SizeSpec::Min => 0,
+        SizeSpec::Data(n) => n,
+        SizeSpec::Frac(pm) => txs::data_len_for(max * usize::from(pm) / 1000, false),
+        SizeSpec::ExactMax => txs::data_len_for(max, false),
+        SizeSpec::MaxPlus(k) => txs::data_len_for(max + usize::from(k), true),
+    }
+}
+
+// ---------------------------------------------------------------------------------------------
+// shared simulation state
+// ---------------------------------------------------------------------------------------------
+
+#[derive(Clone, Debug)]
+struct SentTx {
+    key: TxKey,
+    size: usize,
+    /// set once the transaction was seen in a definitive broadcast
+    emitted: bool,
+}
+
+#[derive(Clone, Debug)]
+struct EmittedBundle {
+    total: usize,
+    first_size: usize,
+    after_shutdown: bool,
+}
+
+struct Shared {
+    trace: Trace,
+    stats: Stats,
+    viol: Violations,
+    cfg: Config,
+    start: Instant,
+    step: u64,
+    // fake sequencer
+    signer: [u8; 20],
+    nonce: u32,
+    faults_on: bool,
+    stale_code_taken: bool,
+    bcast_seq: usize,
+    nonce_seq: usize,
+    genesis_seq: usize,
+    consecutive_bcast_errors: u32,
+    consecutive_nonce_errors: u32,
+    // observations
+    /// transactions whose `send_timeout` returned `Ok`, in completion (= channel) order
+    sent: Vec<SentTx>,
+    /// everything in `sent` before this index is either emitted or skipped
+    cursor: usize,
+    emitted_bundles: Vec<EmittedBundle>,
+    stale_bundle: Option<Vec<TxKey>>,
+    shutdown_fired: bool,
+    broadcasts_processed: u64,
+    sink: Arc<Mutex<LogSink>>,
+    /// exploration only: bytes of transactions the sequencer has in its tx cache
+    tx_cache: Vec<Vec<u8>>,
+}
+
+impl Shared {
+    fn now_ms(&self) -> u64 {
+        Instant::now().duration_since(self.start).as_millis() as u64
+    }
+
+    fn ev(&mut self, line: &str) {
+        let t = self.now_ms();
+        self.trace.ev(&format!("{t:>7} {line}"));
+    }
+
+    fn violation(&mut self, oracle: &str, signature: &str, msg: String) {
+        self.ev(&format!("VIOLATION {oracle} {signature}"));
+        let step = self.step;
+        self.viol.push(PROP, oracle, signature, step, msg);
+    }
+}
+
+type Sh = Arc<Mutex<Shared>>;
+
+// ---------------------------------------------------------------------------------------------
+// log capture: the executor reports refusals only through `warn!`
+// ---------------------------------------------------------------------------------------------
+
+#[derive(Default)]
+struct LogSink {
+    /// (kind, encoded size reported, number of bundles definitively broadcast before) of "failed
+    /// to bundle transaction, dropping it."
+    refusals: Vec<(RefusalKind, usize, usize)>,
+    /// maintained by the fake sequencer
+    bundles_emitted: usize,
+    drain_timed_out: bool,
+    drain_failed: bool,
+    other_warnings: u64,
+}
+
+#[derive(Clone, Copy, Debug, PartialEq, Eq)]
+enum RefusalKind {
+    TooLarge,
+    QueueFull,
+    Unknown,
+}
+
+struct Capture {
+    sink: Arc<Mutex<LogSink>>,
+}
+
+#[derive(Default)]
+struct FieldGrab {
+    message: String,
+    error: String,
+}
+
+impl tracing::field::Visit for FieldGrab {
+    fn record_debug(&mut self, field: &tracing::field::Field, value: &dyn std::fmt::Debug) {
+        match field.name() {
+            "message" => self.message = format!("{value:?}"),
+            "error" => self.error = format!("{value:?}"),
+            _ => {}
+        }
+    }
+
+    fn record_str(&mut self, field: &tracing::field::Field, value: &str) {
+        match field.name() {
+            "message" => self.message = value.to_string(),
+            "error" => self.error = value.to_string(),
+            _ => {}
+        }
+    }
+
+    fn record_error(
+        &mut self,
+        field: &tracing::field::Field,
+        value: &(dyn std::error::Error + 'static),
+    ) {
+        if field.name() == "error" {
+            self.error = value.to_string();
+        }
+    }
+}
+
+fn last_number_after(hay: &str, needle: &str) -> Option<usize> {
+    let at = hay.rfind(needle)? + needle.len();
+    let digits: String = hay[at..].chars().take_while(char::is_ascii_digit).collect();
+    digits.parse().ok()
+}
+
+impl tracing::Subscriber for Capture {
+    fn enabled(&self, metadata: &tracing::Metadata<'_>) -> bool {
+        metadata.is_event() && *metadata.level() <= tracing::Level::WARN
+    }
+
+    fn new_span(&self, _span: &tracing::span::Attributes<'_>) -> tracing::span::Id {
+        tracing::span::Id::from_u64(1)
+    }
+
+    fn record(&self, _span: &tracing::span::Id, _values: &tracing::span::Record<'_>) {}
+
+    fn record_follows_from(&self, _span: &tracing::span::Id, _follows: &tracing::span::Id) {}
+
+    fn event(&self, event: &tracing::Event<'_>) {
+        let mut grab = FieldGrab::default();
+        event.record(&mut grab);
+        let mut sink = self.sink.lock().unwrap();
+        if grab.message.contains("failed to bundle transaction, dropping it") {
+            let kind = if grab.error.contains("larger than the max bundle size") {
+                RefusalKind::TooLarge
+            } else if grab.error.contains("finished bundle queue is at capacity") {
+                RefusalKind::QueueFull
+            } else {
+                RefusalKind::Unknown
+            };
+            let size = last_number_after(&grab.error, "action size: ").unwrap_or(usize::MAX);
+            let seen = sink.bundles_emitted;
+            sink.refusals.push((kind, size, seen));
+        } else if grab.message.contains("executor shutdown tasks failed to complete in time")
+            || grab.message.contains("unable to drain all bundles within the allocated time")
+        {
+            sink.drain_timed_out = true;
+        } else if grab.message.contains("executor shutdown tasks failed") {
+            sink.drain_failed = true;
+        } else {
+            sink.other_warnings += 1;
+        }
+    }
+
+    fn enter(&self, _span: &tracing::span::Id) {}
+
+    fn exit(&self, _span: &tracing::span::Id) {}
+}
+
+// ---------------------------------------------------------------------------------------------
+// in-memory transport for the tonic channel (no sockets)
+// ---------------------------------------------------------------------------------------------
+
+struct MemIo(tokio::io::DuplexStream);
+
+impl hyper::rt::Read for MemIo {
+    fn poll_read(
+        mut self: Pin<&mut Self>,
+        cx: &mut Context<'_>,
+        mut buf: hyper::rt::ReadBufCursor<'_>,
+    ) -> Poll<io::Result<()>> {
+        let mut tmp = [0u8; 8192];
+        let want = buf.remaining().min(tmp.len());
+        if want == 0 {
+            return Poll::Ready(Ok(()));
+        }
+        let mut rb = tokio::io::ReadBuf::new(&mut tmp[..want]);
+        match tokio::io::AsyncRead::poll_read(Pin::new(&mut self.0), cx, &mut rb) {
+            Poll::Ready(Ok(())) => {
+                buf.put_slice(rb.filled());
+                Poll::Ready(Ok(()))
+            }
+            Poll::Ready(Err(e)) => Poll::Ready(Err(e)),
+            Poll::Pending => Poll::Pending,
+        }
+    }
+}
+
+impl hyper::rt::Write for MemIo {
+    fn poll_write(
+        mut self: Pin<&mut Self>,
+        cx: &mut Context<'_>,
+        buf: &[u8],
+    ) -> Poll<io::Result<usize>> {
+        tokio::io::AsyncWrite::poll_write(Pin::new(&mut self.0), cx, buf)
+    }
+
+    fn poll_flush(mut self: Pin<&mut Self>, cx: &mut Context<'_>) -> Poll<io::Result<()>> {
+        tokio::io::AsyncWrite::poll_flush(Pin::new(&mut self.0), cx)
+    }
+
+    fn poll_shutdown(mut self: Pin<&mut Self>, cx: &mut Context<'_>) -> Poll<io::Result<()>> {
+        tokio::io::AsyncWrite::poll_shutdown(Pin::new(&mut self.0), cx)
+    }
+}
+
+/// Every connection attempt of the channel creates a fresh duplex pipe and hands the other end to
+/// the in-process tonic server.
+#[derive(Clone)]
+struct MemConnector {
+    to_server: mpsc::UnboundedSender<Result<tokio::io::DuplexStream, io::Error>>,
+}
+
+impl tonic::codegen::Service<tonic::transport::Uri> for MemConnector {
+    type Error = io::Error;
+    type Future = futures::future::Ready<Result<MemIo, io::Error>>;
+    type Response = MemIo;
+
+    fn poll_ready(&mut self, _cx: &mut Context<'_>) -> Poll<Result<(), Self::Error>> {
+        Poll::Ready(Ok(()))
+    }
+
+    fn call(&mut self, _uri: tonic::transport::Uri) -> Self::Future {
+        let (client, server) = tokio::io::duplex(1 << 16);
+        let res = self
+            .to_server
+            .send(Ok(server))
+            .map(|()| MemIo(client))
+            .map_err(|_| io::Error::new(io::ErrorKind::ConnectionRefused, "sim server gone"));
+        futures::future::ready(res)
+    }
+}
+
+// ---------------------------------------------------------------------------------------------
+// fake sequencer: gRPC side
+// ---------------------------------------------------------------------------------------------
+
+struct FakeGrpc {
+    sh: Sh,
+}
+
+#[async_trait::async_trait]
+impl SequencerService for FakeGrpc {
+    async fn get_sequencer_block(
+        self: Arc<Self>,
+        _request: tonic::Request<GetSequencerBlockRequest>,
+    ) -> Result<tonic::Response<RawSequencerBlock>, tonic::Status> {
+        Err(tonic::Status::unimplemented("sim"))
+    }
+
+    async fn get_filtered_sequencer_block(
+        self: Arc<Self>,
+        _request: tonic::Request<GetFilteredSequencerBlockRequest>,
+    ) -> Result<tonic::Response<FilteredSequencerBlock>, tonic::Status> {
+        Err(tonic::Status::unimplemented("sim"))
+    }
+
+    async fn get_pending_nonce(
+        self: Arc<Self>,
+        _request: tonic::Request<GetPendingNonceRequest>,
+    ) -> Result<tonic::Response<GetPendingNonceResponse>, tonic::Status> {
+        let plan = {
+            let mut g = self.sh.lock().unwrap();
+            let k = g.nonce_seq;
+            g.nonce_seq += 1;
+            let plan = if g.faults_on {
+                g.cfg.nonce_plan[k % g.cfg.nonce_plan.len()]
+            } else {
+                NoncePlan {
+                    latency_ms: CALM_LATENCY_MS,
+                    error: false,
+                }
+            };
+            g.ev(&format!("nonce-req k={k} latency={}", plan.latency_ms));
+            plan
+        };
+        tokio::time::sleep(Duration::from_millis(plan.latency_ms)).await;
+        let mut g = self.sh.lock().unwrap();
+        if plan.error && g.faults_on && g.consecutive_nonce_errors < MAX_CONSECUTIVE_ERRORS {
+            g.consecutive_nonce_errors += 1;
+            g.stats.fault("nonce_rpc_error");
+            g.ev("nonce-rsp unavailable");
+            return Err(tonic::Status::unavailable("sim: sequencer unavailable"));
+        }
+        g.consecutive_nonce_errors = 0;
+        let nonce = g.nonce;
+        g.ev(&format!("nonce-rsp {nonce}"));
+        Ok(tonic::Response::new(GetPendingNonceResponse {
+            inner: nonce,
+        }))
+    }
+
+    async fn get_upgrades_info(
+        self: Arc<Self>,
+        _request: tonic::Request<GetUpgradesInfoRequest>,
+    ) -> Result<tonic::Response<GetUpgradesInfoResponse>, tonic::Status> {
+        Err(tonic::Status::unimplemented("sim"))
+    }
+
+    async fn get_validator_name(
+        self: Arc<Self>,
+        _request: tonic::Request<GetValidatorNameRequest>,
+    ) -> Result<tonic::Response<GetValidatorNameResponse>, tonic::Status> {
+        Err(tonic::Status::unimplemented("sim"))
+    }
+}
+
+// ---------------------------------------------------------------------------------------------
+// fake sequencer: CometBFT JSON-RPC side (through SimHttpClient)
+// ---------------------------------------------------------------------------------------------
+
+fn genesis_json() -> String {
+    use sequencer_client::tendermint::{
+        self,
+        consensus::{
+            params::{
+                AbciParams,
+                ValidatorParams,
+            },
+            Params,
+        },
+        Genesis,
+        Time,
+    };
+    let genesis: Genesis<serde_json::Value> = Genesis {
+        genesis_time: Time::from_unix_timestamp(1, 1).unwrap(),
+        chain_id: CHAIN_ID.try_into().unwrap(),
+        initial_height: 1,
+        consensus_params: Params {
+            block: tendermint::block::Size {
+                max_bytes: 1024,
+                max_gas: 1024,
+                time_iota_ms: 1000,
+            },
+            evidence: tendermint::evidence::Params {
+                max_age_num_blocks: 1000,
+                max_age_duration: tendermint::evidence::Duration(Duration::from_secs(3600)),
+                max_bytes: 1_048_576,
+            },
+            validator: ValidatorParams {
+                pub_key_types: vec![tendermint::public_key::Algorithm::Ed25519],
+            },
+            version: None,
+            abci: AbciParams::default(),
+        },
+        validators: vec![],
+        app_hash: tendermint::hash::AppHash::default(),
+        app_state: serde_json::Value::Null,
+    };
+    let wrapper = rpc::response::Wrapper::new_with_id(
+        rpc::Id::Num(1),
+        Some(rpc::endpoint::genesis::Response::<serde_json::Value> {
+            genesis,
+        }),
+        None,
+    );
+    serde_json::to_string(&wrapper).unwrap()
+}
+
+fn tx_sync_json(code: u32, log: &str) -> String {
+    let wrapper = rpc::response::Wrapper::new_with_id(
+        rpc::Id::Num(1),
+        Some(tx_sync::Response {
+            code: code.into(),
+            data: vec![].into(),
+            log: log.to_string(),
+            hash: sequencer_client::tendermint::Hash::Sha256([0; 32]),
+            codespace: String::new(),
+        }),
+        None,
+    );
+    serde_json::to_string(&wrapper).unwrap()
+}
+
+async fn handle_jsonrpc(sh: Sh, request: String) -> Result<String, rpc::Error> {
+    let value: serde_json::Value =
+        serde_json::from_str(&request).map_err(|e| rpc::Error::client_internal(e.to_string()))?;
+    // the request id is a random UUID: never looked at, never logged
+    match value.get("method").and_then(|m| m.as_str()) {
+        Some("genesis") => {
+            let fail = {
+                let mut g = sh.lock().unwrap();
+                let k = g.genesis_seq;
+                g.genesis_seq += 1;
+                let fail = k < usize::from(g.cfg.genesis_errors);
+                g.ev(&format!("genesis-req k={k} fail={fail}"));
+                if fail {
+                    g.stats.fault("genesis_error");
+                }
+                fail
+            };
+            tokio::time::sleep(Duration::from_millis(1)).await;
+            if fail {
+                Err(rpc::Error::server("sim: connection refused".to_string()))
+            } else {
+                Ok(genesis_json())
+            }
+        }
+        Some("broadcast_tx_sync") => handle_broadcast(sh, &request).await,
+        other => Err(rpc::Error::client_internal(format!("sim: unsupported method {other:?}"))),
+    }
+}
+
+async fn handle_broadcast(sh: Sh, request: &str) -> Result<String, rpc::Error> {
+    let wrapped: rpc::request::Wrapper<tx_sync::Request> =
+        serde_json::from_str(request).map_err(|e| rpc::Error::client_internal(e.to_string()))?;
+    let tx_bytes = wrapped.params().tx.clone();
+    let (k, plan) = {
+        let mut g = sh.lock().unwrap();
+        let k = g.bcast_seq;
+        g.bcast_seq += 1;
+        let plan = if g.faults_on {
+            g.cfg.bcast_plan[k % g.cfg.bcast_plan.len()]
+        } else {
+            BcastPlan {
+                latency_ms: CALM_LATENCY_MS,
+                outcome: BcastOutcome::Process,
+            }
+        };
+        g.ev(&format!("bcast-req k={k} latency={} plan={:?}", plan.latency_ms, plan.outcome));
+        (k, plan)
+    };
+    tokio::time::sleep(Duration::from_millis(plan.latency_ms)).await;
+    let mut g = sh.lock().unwrap();
+    g.step += 1;
+    if plan.latency_ms > g.cfg.block_time_ms {
+        g.stats.fault("latency_over_block_time");
+    }
+    let faults_on = g.faults_on;
+    if plan.outcome == BcastOutcome::TransportError
+        && faults_on
+        && g.consecutive_bcast_errors < MAX_CONSECUTIVE_ERRORS
+    {
+        g.consecutive_bcast_errors += 1;
+        g.stats.fault("bcast_transport_error");
+        g.ev(&format!("bcast-rsp k={k} transport-error"));
+        return Err(rpc::Error::server("sim: connection reset by peer".to_string()));
+    }
+    g.consecutive_bcast_errors = 0;
+    g.broadcasts_processed += 1;
+    if g.tx_cache.iter().any(|c| c.as_slice() == &tx_bytes[..]) {
+        g.stats.fault("tx_already_in_cache");
+        g.ev(&format!("bcast-rsp k={k} tx-already-in-cache"));
+        return Err(rpc::Error::server("tx already exists in cache".to_string()));
+    }
+
+    // decode and verify what arrived
+    let tx = RawTransaction::decode(&*tx_bytes)
+        .map_err(|e| e.to_string())
+        .and_then(|raw| Transaction::try_from_raw(raw).map_err(|e| e.to_string()));
+    let tx = match tx {
+        Ok(tx) => tx,
+        Err(e) => {
+            g.violation(
+                "malformed-broadcast",
+                "decode-or-signature",
+                format!("broadcast {k} is not a valid signed sequencer transaction: {e}"),
+            );
+            return Ok(tx_sync_json(1, "sim: malformed"));
+        }
+    };
+    if tx.chain_id() != CHAIN_ID || tx.address_bytes() != &g.signer {
+        g.violation(
+            "malformed-broadcast",
+            "chain-id-or-signer",
+            format!("broadcast {k}: chain id {:?}", tx.chain_id()),
+        );
+    }
+    let mut keys = Vec::new();
+    let mut sizes = Vec::new();
+    let mut foreign = 0usize;
+    for action in tx.actions() {
+        match action.as_rollup_data_submission() {
+            Some(a) => {
+                keys.push(txs::key_of(a));
+                sizes.push(txs::wire_size(a));
+            }
+            None => foreign += 1,
+        }
+    }
+    let total: usize = sizes.iter().sum();
+    let desc = format!(
+        "nonce={} n={} size={total} [{}]",
+        tx.nonce(),
+        keys.len(),
+        keys.iter().map(TxKey::short).collect::<Vec<_>>().join(",")
+    );
+    if foreign > 0 {
+        g.violation("foreign-action", "broadcast", format!("broadcast {k}: {foreign} foreign actions"));
+    }
+    if keys.is_empty() {
+        g.violation("empty-bundle", "broadcast", format!("broadcast {k} carries no rollup transaction"));
+    }
+    if total > g.cfg.max_bytes {
+        let max = g.cfg.max_bytes;
+        g.violation(
+            "size-bound",
+            "broadcast",
+            format!("broadcast {k}: bundle of {} txs encodes to {total} > max {max}", keys.len()),
+        );
+    }
+
+    // the sequencer's answer
+    let expected = g.nonce;
+    if tx.nonce() < expected {
+        let (code, name) = if g.stale_code_taken {
+            (AbciErrorCode::NONCE_TAKEN.value().get(), "nonce_taken")
+        } else {
+            (AbciErrorCode::INVALID_NONCE.value().get(), "invalid_nonce")
+        };
+        g.stats.fault(name);
+        g.ev(&format!("bcast-rsp k={k} {name} expected={expected} {desc}"));
+        g.trace.abs(name);
+        g.stale_bundle = Some(keys);
+        return Ok(tx_sync_json(code, name));
+    }
+    if tx.nonce() > expected {
+        // a real sequencer parks it: answered OK but never executed before the gap closes
+        g.stats.probe("B.parked_future_nonce");
+        g.ev(&format!("bcast-rsp k={k} parked expected={expected} {desc}"));
+        return Ok(tx_sync_json(0, ""));
+    }
+    if let Some(prev) = g.stale_bundle.take() {
+        if prev == keys {
+            g.stats.probe("B.resubmitted_same_bundle_under_new_nonce");
+        } else {
+            g.stats.probe("B.bundle_changed_after_nonce_error");
+        }
+    }
+    let rejected = plan.outcome == BcastOutcome::RejectOther && faults_on;
+    if rejected {
+        // definitive non-nonce rejection: the composer can do nothing about it, the bundle counts
+        // as emitted (it must still never come back)
+        g.stats.fault("bcast_reject_other");
+        g.ev(&format!("bcast-rsp k={k} rejected-other {desc}"));
+    } else {
+        g.nonce += 1;
+        g.ev(&format!("bcast-rsp k={k} accepted {desc}"));
+    }
+    record_emission(&mut g, &keys, &sizes, total);
+    if plan.outcome == BcastOutcome::AcceptLoseResponse && faults_on {
+        g.tx_cache.push(tx_bytes.to_vec());
+        g.stats.fault("accepted_response_lost");
+        g.ev(&format!("bcast-rsp k={k} response lost"));
+        return Err(rpc::Error::server("sim: connection reset before the response".to_string()));
+    }
+    if rejected {
+        Ok(tx_sync_json(AbciErrorCode::INSUFFICIENT_FUNDS.value().get(), "sim: insufficient funds"))
+    } else {
+        Ok(tx_sync_json(0, ""))
+    }
+}
+
+/// Incremental part of the history oracle: the concatenation of all definitively emitted bundles
+/// must be a subsequence of the transactions handed to the executor, in the order they were handed
+/// over (exactly once, order across and inside bundles).
+fn record_emission(g: &mut Shared, keys: &[TxKey], sizes: &[usize], total: usize) {
+    for key in keys {
+        let from = g.cursor;
+        if let Some(off) = g.sent[from..].iter().position(|s| &s.key == key) {
+            let at = from + off;
+            g.sent[at].emitted = true;
+            g.cursor = at + 1;
+            continue;
+        }
+        let (sig, detail) = match g.sent[..from].iter().find(|s| &s.key == key) {
+            Some(s) if s.emitted => ("emitted-twice", "was already emitted"),
+            Some(_) => ("out-of-order", "was handed over before transactions that are already emitted"),
+            None => ("unknown-tx-emitted", "was never handed to the executor"),
+        };
+        g.violation(
+            "exactly-once-order",
+            sig,
+            format!("emitted transaction {} {detail}", key.short()),
+        );
+        return;
+    }
+    let after_shutdown = g.shutdown_fired;
+    g.sink.lock().unwrap().bundles_emitted += 1;
+    g.emitted_bundles.push(EmittedBundle {
+        total,
+        first_size: sizes.first().copied().unwrap_or(0),
+        after_shutdown,
+    });
+    let n = keys.len().min(9);
+    g.trace.abs(&format!("emit|n{n}|s{}", u8::from(after_shutdown)));
+}
+
+// ---------------------------------------------------------------------------------------------
+// run
+// ---------------------------------------------------------------------------------------------
+
+fn metrics() -> &'static Metrics {
+    thread_local! {
+        static METRICS: std::cell::OnceCell<&'static Metrics> = const { std::cell::OnceCell::new() };
+    }
+    METRICS.with(|m| {
+        *m.get_or_init(|| {
+            let rollups = (0u8..4)
+                .map(|k| format!("{}::ws://sim-rollup-{k}:8546", txs::rollup_name(k)))
+                .collect::<Vec<_>>()
+                .join(",");
+            let cfg = crate::Config {
+                log: "off".into(),
+                api_listen_addr: "127.0.0.1:0".parse().unwrap(),
+                sequencer_abci_endpoint: ABCI_URL.into(),
+                sequencer_grpc_endpoint: GRPC_URL.into(),
+                sequencer_chain_id: CHAIN_ID.into(),
+                rollups,
+                private_key_file: String::new(),
+                sequencer_address_prefix: "astria".into(),
+                block_time_ms: 1000,
+                max_bytes_per_bundle: 1000,
+                bundle_queue_capacity: 1,
+                force_stdout: false,
+                no_otel: true,
+                no_metrics: true,
+                metrics_http_listener_addr: String::new(),
+                grpc_addr: "127.0.0.1:0".parse().unwrap(),
+                fee_asset: "nria".parse().unwrap(),
+            };
+            Box::leak(Box::new(Metrics::noop_metrics(&cfg).expect("noop metrics")))
+        })
+    })
+}
+
+pub(crate) fn run(s: &Scenario) -> Outcome {
+    let sink = Arc::new(Mutex::new(LogSink::default()));
+    let _log_guard = tracing::subscriber::set_default(Capture {
+        sink: sink.clone(),
+    });
+    sequencer_client::verif::clear();
+    let rt = tokio::runtime::Builder::new_current_thread()
+        .enable_all()
+        .start_paused(true)
+        .build()
+        .expect("runtime");
+    let outcome = rt.block_on(simulate(s, sink));
+    drop(rt);
+    sequencer_client::verif::clear();
+    outcome
+}
+
+async fn simulate(s: &Scenario, sink: Arc<Mutex<LogSink>>) -> Outcome {
+    let cfg = s.cfg.clone();
+    let start = Instant::now();
+    let key_bytes = [0x42u8; 32];
+    let signing_key = SigningKey::from(key_bytes);
+    let signer = *signing_key.verification_key().address_bytes();
+    let sh: Sh = Arc::new(Mutex::new(Shared {
+        trace: Trace::new(),
+        stats: Stats::default(),
+        viol: Violations::default(),
+        cfg: cfg.clone(),
+        start,
+        step: 0,
+        signer,
+        nonce: cfg.start_nonce,
+        faults_on: true,
+        stale_code_taken: false,
+        bcast_seq: 0,
+        nonce_seq: 0,
+        genesis_seq: 0,
+        consecutive_bcast_errors: 0,
+        consecutive_nonce_errors: 0,
+        sent: Vec::new(),
+        cursor: 0,
+        emitted_bundles: Vec::new(),
+        stale_bundle: None,
+        shutdown_fired: false,
+        broadcasts_processed: 0,
+        sink: sink.clone(),
+        tx_cache: Vec::new(),
+    }));
+    sh.lock().unwrap().ev(&format!(
+        "cfg max={} cap={} block={}ms chan={} send_timeout={}ms shutdown_at={}ms nonce0={}",
+        cfg.max_bytes,
+        cfg.capacity,
+        cfg.block_time_ms,
+        cfg.chan_capacity,
+        cfg.send_timeout_ms,
+        cfg.shutdown_at_ms,
+        cfg.start_nonce
+    ));
+
+    // CometBFT JSON-RPC fake behind SimHttpClient
+    {
+        let sh = sh.clone();
+        sequencer_client::verif::register(
+            ABCI_URL,
+            Arc::new(move |req: String| {
+                let sh = sh.clone();
+                Box::pin(handle_jsonrpc(sh, req)) as sequencer_client::verif::HandlerFuture
+            }),
+        );
+    }
+    // gRPC fake behind an in-memory channel
+    let (conn_tx, conn_rx) = mpsc::unbounded_channel();
+    let server = tokio::spawn(
+        tonic::transport::Server::builder()
+            .add_service(SequencerServiceServer::new(FakeGrpc {
+                sh: sh.clone(),
+            }))
+            .serve_with_incoming(tokio_stream::wrappers::UnboundedReceiverStream::new(conn_rx)),
+    );
+    let channel = tonic::transport::Endpoint::from_static(GRPC_URL).connect_with_connector_lazy(
+        MemConnector {
+            to_server: conn_tx,
+        },
+    );
+
+    // the executor, field by field (what `Builder::build` would assemble)
+    let (tx_chan, rx_chan) = mpsc::channel(cfg.chan_capacity.max(1));
+    let (status, _) = watch::channel(Status::new());
+    let shutdown_token = CancellationToken::new();
+    let address = Address::builder()
+        .prefix("astria")
+        .array(signer)
+        .try_build()
+        .expect("address");
+    let executor = Executor {
+        status,
+        serialized_rollup_transactions: rx_chan,
+        abci_client: sequencer_client::HttpClient::new(ABCI_URL).expect("sim http client"),
+        grpc_client: SequencerServiceClient::new(channel),
+        sequencer_chain_id: CHAIN_ID.to_string(),
+        sequencer_key: signing_key,
+        address,
+        block_time: Duration::from_millis(cfg.block_time_ms),
+        max_bytes_per_bundle: cfg.max_bytes,
+        bundle_queue_capacity: cfg.capacity,
+        shutdown_token: shutdown_token.clone(),
+        metrics: metrics(),
+    };
+    let handle = Handle::new(tx_chan);
+    let mut status_rx = executor.subscribe();
+    let mut exec_task = tokio::spawn(executor.run_until_stopped());
+
+    // wait until the executor is initialised: only then is every transaction that enters the
+    // channel certain to be pulled by the executor (before, a shutdown returns without draining)
+    // (the `Ref` returned by `wait_for` holds the watch's read lock: drop it at once)
+    let connected = matches!(
+        tokio::time::timeout(Duration::from_secs(600), status_rx.wait_for(Status::is_connected))
+            .await,
+        Ok(Ok(_))
+    );
+    let mut exec_result = None;
+    if !connected {
+        let mut g = sh.lock().unwrap();
+        g.violation(
+            "executor-init",
+            "never-connected",
+            "executor did not report is_connected within 600 s of virtual time".into(),
+        );
+    } else {
+        let t0 = Instant::now();
+        sh.lock().unwrap().ev("connected");
+
+        // release the ops in virtual-time order; the shutdown signal is one more event
+        let mut senders = Vec::new();
+        let mut queue: VecDeque<(u64, Option<&Op>)> = VecDeque::new();
+        {
+            let mut evs: Vec<(u64, usize, Option<&Op>)> = s
+                .ops
+                .iter()
+                .enumerate()
+                .map(|(i, op)| (op.at_ms(), i + 1, Some(op)))
+                .collect();
+            // the shutdown goes before ops scheduled for the same millisecond
+            evs.push((cfg.shutdown_at_ms, 0, None));
+            evs.sort_by_key(|e| (e.0, e.1));
+            queue.extend(evs.into_iter().map(|e| (e.0, e.2)));
+        }
+        while let Some((at, op)) = queue.pop_front() {
+            tokio::time::sleep_until(t0 + Duration::from_millis(at)).await;
+            match op {
+                None => {
+                    let mut g = sh.lock().unwrap();
+                    g.faults_on = false;
+                    g.shutdown_fired = true;
+                    g.ev("shutdown");
+                    g.trace.abs("shutdown");
+                    drop(g);
+                    shutdown_token.cancel();
+                }
+                Some(Op::NonceBump {
+                    by,
+                    taken,
+                    ..
+                }) => {
+                    let mut g = sh.lock().unwrap();
+                    g.nonce = g.nonce.saturating_add(*by);
+                    g.stale_code_taken = *taken;
+                    g.stats.fault("nonce_bump");
+                    let n = g.nonce;
+                    g.ev(&format!("nonce-bump +{by} -> {n}"));
+                }
+                Some(Op::Send {
+                    id,
+                    rollup,
+                    asset,
+                    size,
+                    ..
+                }) => {
+                    let spec = TxSpec {
+                        id: *id,
+                        rollup: *rollup,
+                        asset: *asset,
+                        data_len: resolve(*size, cfg.max_bytes),
+                    };
+                    let tx = txs::build(&spec);
+                    let key = txs::expected_key(&spec);
+                    let size = txs::emitted_size(spec.data_len);
+                    let handle = handle.clone();
+                    let sh = sh.clone();
+                    let timeout = Duration::from_millis(cfg.send_timeout_ms);
+                    let id = *id;
+                    sh.lock().unwrap().ev(&format!("send#{id} size={size} start"));
+                    senders.push(tokio::spawn(async move {
+                        let res = handle.send_timeout(tx, timeout).await;
+                        let mut g = sh.lock().unwrap();
+                        match res {
+                            Ok(()) => {
+                                g.sent.push(SentTx {
+                                    key,
+                                    size,
+                                    emitted: false,
+                                });
+                                g.ev(&format!("send#{id} ok"));
+                            }
+                            Err(mpsc::error::SendTimeoutError::Timeout(_)) => {
+                                g.stats.probe("B.send_timed_out_backpressure");
+                                g.ev(&format!("send#{id} timeout"));
+                                g.trace.abs("send-timeout");
+                            }
+                            Err(mpsc::error::SendTimeoutError::Closed(_)) => {
+                                g.stats.probe("B.send_after_close");
+                                g.ev(&format!("send#{id} closed"));
+                            }
+                        }
+                    }));
+                }
+            }
+        }
+
+        // bounded liveness once faults have stopped: the executor must come down
+        match tokio::time::timeout(Duration::from_secs(120), &mut exec_task).await {
+            Ok(joined) => exec_result = Some(joined),
+            Err(_) => {
+                let mut g = sh.lock().unwrap();
+                g.violation(
+                    "executor-liveness",
+                    "did-not-stop",
+                    "executor still running 120 s (virtual) after the shutdown signal with a \
+                     healthy sequencer"
+                        .into(),
+                );
+            }
+        }
+        for t in senders {
+            let _ = tokio::time::timeout(Duration::from_secs(30), t).await;
+        }
+    }
+    exec_task.abort();
+    server.abort();
+    drop(handle);
+
+    let mut g = sh.lock().unwrap();
+    g.ev("executor stopped");
+    match &exec_result {
+        Some(Ok(Ok(()))) => {}
+        Some(Ok(Err(e))) => {
+            let msg = format!("executor returned an error: {e:#}");
+            g.violation("executor-exit", "error", msg);
+        }
+        Some(Err(join)) => {
+            let msg = format!("executor task failed: {join}");
+            g.violation("panic", "executor-task", msg);
+        }
+        None => {}
+    }
+    let sink = sink.lock().unwrap();
+    final_checks(&mut g, &sink);
+
+    let mut stats = std::mem::take(&mut g.stats);
+    stats.steps = s.ops.len() as u64 + g.broadcasts_processed;
+    stats.sim_ms = g.now_ms();
+    stats.finish(&g.trace);
+    Outcome {
+        violations: std::mem::take(&mut g.viol.list),
+        stats,
+        trace_lines: std::mem::take(&mut g.trace.lines),
+    }
+}
+
+/// End-of-run history checks.
+fn final_checks(g: &mut Shared, sink: &LogSink) {
+    let max = g.cfg.max_bytes;
+    if sink.drain_timed_out {
+        g.ev("log: drain timed out");
+        g.stats.probe("B.drain_timed_out");
+    }
+    if sink.drain_failed {
+        g.ev("log: drain failed");
+    }
+    // every transaction handed to the executor is either emitted once or accounted for by a
+    // refusal the executor logged; refusals are legitimate only for the two reasons the property
+    // names
+    let mut missing_over: Vec<usize> = Vec::new();
+    let mut missing_fit: Vec<usize> = Vec::new();
+    let mut first_fit_missing = None;
+    for s in &g.sent {
+        if !s.emitted {
+            if s.size > max {
+                missing_over.push(s.size);
+            } else {
+                if first_fit_missing.is_none() {
+                    first_fit_missing = Some(s.key.short());
+                }
+                missing_fit.push(s.size);
+            }
+        }
+    }
+    let mut logged_over: Vec<usize> = Vec::new();
+    let mut logged_full: Vec<usize> = Vec::new();
+    let mut full_refusal_seen_at: Vec<usize> = Vec::new();
+    for (kind, size, seen) in &sink.refusals {
+        match kind {
+            RefusalKind::TooLarge => logged_over.push(*size),
+            RefusalKind::QueueFull => {
+                logged_full.push(*size);
+                full_refusal_seen_at.push(*seen);
+            }
+            RefusalKind::Unknown => {
+                g.violation(
+                    "refusal-unjustified",
+                    "unknown-reason",
+                    "executor dropped a transaction for a reason the property does not allow".into(),
+                );
+            }
+        }
+    }
+    g.ev(&format!(
+        "final sent={} emitted={} missing_fit={} missing_over={} logged_full={} logged_over={} bundles={}",
+        g.sent.len(),
+        g.sent.iter().filter(|s| s.emitted).count(),
+        missing_fit.len(),
+        missing_over.len(),
+        logged_full.len(),
+        logged_over.len(),
+        g.emitted_bundles.len()
+    ));
+    g.stats.probe_n("B.txs_handed_over", g.sent.len() as u64);
+    g.stats.probe_n("B.txs_emitted", g.sent.iter().filter(|s| s.emitted).count() as u64);
+    g.stats.probe_n("B.refused_oversize", logged_over.len() as u64);
+    g.stats.probe_n("B.refused_queue_full", logged_full.len() as u64);
+    g.stats.probe_n("B.bundles_emitted", g.emitted_bundles.len() as u64);
+
+    for v in [&mut missing_over, &mut missing_fit, &mut logged_over, &mut logged_full] {
+        v.sort_unstable();
+    }
+    if let Some(too_small) = logged_over.iter().find(|s| **s <= max) {
+        g.violation(
+            "refusal-unjustified",
+            "too-large-but-within-max",
+            format!("a transaction of size {too_small} was refused as too large, max {max}"),
+        );
+    }
+    let only_if_clean = g.viol.is_empty();
+    if only_if_clean && missing_fit != logged_full {
+        if missing_fit.len() > logged_full.len() {
+            g.violation(
+                "missing-without-refusal",
+                if g.shutdown_fired && sink.drain_timed_out { "drain-timed-out" } else { "lost" },
+                format!(
+                    "{} transactions that fit a bundle were handed to the executor but never \
+                     reached the sequencer, only {} refusals (queue full) were reported; first \
+                     missing: {}",
+                    missing_fit.len(),
+                    logged_full.len(),
+                    first_fit_missing.unwrap_or_default()
+                ),
+            );
+        } else {
+            g.violation(
+                "refusal-accounting",
+                "refused-but-not-missing",
+                format!(
+                    "refusals logged for sizes {logged_full:?} but the missing transactions have \
+                     sizes {missing_fit:?}"
+                ),
+            );
+        }
+    }
+    if g.viol.is_empty() && missing_over != logged_over {
+        g.violation(
+            "refusal-accounting",
+            "oversize",
+            format!(
+                "oversize transactions missing: {missing_over:?}, refusals logged: {logged_over:?}"
+            ),
+        );
+    }
+
+    // "refused only when ... the queue of finished bundles is full": when a transaction was refused
+    // for that reason, `capacity` finished bundles plus a non-empty bundle under construction were
+    // waiting, and since nothing may be lost they all must have reached the sequencer afterwards
+    if g.viol.is_empty() && !sink.drain_timed_out {
+        let total = g.emitted_bundles.len();
+        for seen in &full_refusal_seen_at {
+            if total - seen.min(&total) < g.cfg.capacity + 1 {
+                let cap = g.cfg.capacity;
+                g.violation(
+                    "refusal-unjustified",
+                    "queue-not-full-by-emission-count",
+                    format!(
+                        "a transaction was refused because the finished queue (capacity {cap}) was \
+                         full, but only {} bundles reached the sequencer afterwards",
+                        total - seen.min(&total)
+                    ),
+                );
+                break;
+            }
+        }
+    }
+
+    // non-triviality (inferred from what the sequencer saw): a bundle that left although the next
+    // emitted transaction would still have fitted was taken by the timer (or the drain); one that
+    // left because the next did not fit went through the finished queue
+    let mut preempted = false;
+    let mut via_finished = false;
+    for w in 0..g.emitted_bundles.len() {
+        let b = &g.emitted_bundles[w];
+        match g.emitted_bundles.get(w + 1) {
+            Some(next) if b.total + next.first_size > max => via_finished = true,
+            _ if !b.after_shutdown => preempted = true,
+            _ => {}
+        }
+    }
+    if preempted {
+        g.stats.probe("B.timer_preempted_current");
+    }
+    if via_finished {
+        g.stats.probe("B.bundle_via_finished_queue");
+    }
+    if preempted && via_finished && !sink.refusals.is_empty() {
+        g.stats.mark_nontrivial(PROP);
+    }
+}
